@@ -18,6 +18,17 @@ from .model import norm_text
 _tables: Dict[str, Dict[int, str]] = {}
 
 
+def _array_guard(g) -> bool:
+    """The guard tests an array-valued expression element-wise (some `sign` leaf is over an array)."""
+    if g.kind == "sign":
+        return g.a.is_array()
+    if g.kind == "not":
+        return _array_guard(g.a)
+    if g.kind in ("and", "or"):
+        return any(_array_guard(x) for x in g.a)
+    return False
+
+
 def _table() -> Dict[int, str]:
     if "t" in _tables:
         return _tables["t"]
@@ -491,6 +502,8 @@ def _method_call(fr: Frame, e, f: ast.Attribute, args, kwargs, env, guard, stmt)
     if m in ("all", "any") and not args and isinstance(base, G):
         if base.key in ev.vec_compare:
             return ev.vec_compare[base.key][0 if m == "all" else 1]
+        if m == "any" and _array_guard(base):
+            return g_atom(("any", base.key), f"any({base})")
         return base            # (mask).all() / .any(): as np.all(mask) / np.any(mask)
     if m in ("astype", "copy", "flatten", "ravel", "tolist", "squeeze", "view"):
         return base
@@ -678,7 +691,13 @@ def _known(fr: Frame, name: str, e, args, kwargs, env, guard, stmt):
     if name in ("np.any", "py.any"):
         v = a(0)
         if isinstance(v, G):
-            return ev.vec_compare[v.key][1] if v.key in ev.vec_compare else v     # any() of an element-wise vector comparison is the disjunction
+            if v.key in ev.vec_compare:
+                return ev.vec_compare[v.key][1]     # any() of an element-wise vector comparison is the disjunction
+            if _array_guard(v):
+                # an element-wise test on an array is carried as one guard that stands for "every element" (the reading of
+                # np.all / of a mask); "some element" is a different statement and must not be confused with it
+                return g_atom(("any", v.key), f"any({v})")
+            return v
         return g_atom(("any", vkey(v)))
     if name in ("np.argmax", "np.argmin"):
         return lift(lambda v: anf.opaque(name[3:], R(v), array=False), a(0))
